@@ -87,6 +87,29 @@ def trajectory_hash(src, seed, actions, modes):
     return H.hexdigest(), chance
 
 
+def concretise(src, seed, ops, modes):
+    """model-guided ops -> concrete flat indices, following the REAL outcomes of
+    one seeded run (np.random is seeded once, never per step), so that the
+    trajectory reaches chance-decided exploits and escalations."""
+    h = walk.build_harness(src, modes)
+    np.random.seed(seed)
+    h.env.reset()
+    acts = []
+    for op in ops:
+        if op[0] == "o":
+            continue
+        act = h.choose(op)
+        i = h.real_index[act.key()]
+        pre = h.mst
+        h.env.step(int(i))
+        h.mst = h.dyn(h.env.current_state.tensor)
+        h.last_act = act
+        if act.kind == "exploit" and not pre[act.target][0] and h.mst[act.target][0] is True:
+            h.last_comp = act.target
+        acts.append(int(i))
+    return acts
+
+
 def worker_main(path):
     """subprocess entry: compute fingerprints / trajectory hashes for a batch"""
     jobs = json.load(open(path))
@@ -186,10 +209,14 @@ def main(tier, replay=None):
     @hypothesis.seed(common.mix_seed(seed, "c14t"))
     @settings(max_examples=n_traj, deadline=None, database=None, phases=[Phase.generate], suppress_health_check=list(HealthCheck))
     @given(src=engine.source_strategy(tier, dict(extras=True), weights=(8, 6, 6), gen_max_hosts=12),
-           s=st.integers(0, 2**31 - 1), acts=st.lists(st.integers(0, 10**6), min_size=20, max_size=120),
+           s=st.integers(0, 2**31 - 1), ops=st.lists(engine.op_strategy(resets=False, gens=False), min_size=20, max_size=80),
            modes=engine.MODES)
-    def gt(src, s, acts, modes):
+    def gt(src, s, ops, modes):
         modes = dict(modes, flat_actions=True)
+        try:
+            acts = concretise(src, s, ops, modes)
+        except walk.SourceRejected:
+            return
         tlist.append(dict(what="traj", source=src, seed=s, actions=acts, modes=modes))
     gt()
 
